@@ -201,6 +201,12 @@ def binop(eng, op, a, b):
         return NVec([binop(eng, op, a, y) for y in b.items])
     if isinstance(a, V.Inf) or isinstance(b, V.Inf):
         raise Unsupported('arithmetic on infinity')
+    if isinstance(op, (ast.BitOr, ast.BitAnd, ast.BitXor, ast.LShift, ast.RShift)):
+        a2, b2 = (int(a) if isinstance(a, bool) else a), (int(b) if isinstance(b, bool) else b)
+        if isinstance(a2, int) and isinstance(b2, int):
+            return {ast.BitOr: a2 | b2, ast.BitAnd: a2 & b2, ast.BitXor: a2 ^ b2, ast.LShift: a2 << b2 if isinstance(op, ast.LShift) else 0,
+                    ast.RShift: a2 >> b2 if isinstance(op, ast.RShift) else 0}[type(op)]
+        raise Unsupported('bit operation on symbolic integers')
     return scalar_binop(eng, op, a, b)
 
 
